@@ -299,6 +299,9 @@ def run_case(case):
             try:
                 if case["i"] % 4 == 2:
                     me.project.backward_simulate(**sim_kwargs(spec))    # (the earlier run was a backward one)
+                elif case["i"] % 8 == 5:
+                    me.project.initialize()                              # (only initialised so far, never run)
+                    res.count("C09.edit_after_initialize_only")
                 else:
                     me.project.simulate(**sim_kwargs(spec))
                 spec2, what = E.edit(er, spec, me, n=er.randint(1, 4))
